@@ -1,11 +1,12 @@
 #!/usr/bin/env python3
 """(maintainer) run the registered checks against every seeded change in /verif/seeded/*/patch.diff.
-Applies each patch to a scratch worktree of /repo's HEAD (never to /repo), points the engine at it with
-VERIF_REPO, runs the check of the property the change targets (and optionally all claimed ones) and prints a table.
-usage: mutants.py [--all-props] [ids...]"""
-import json, os, subprocess, sys
+Each worker applies a patch to its own scratch worktree of /repo's HEAD (never to /repo) and runs the check from its own
+snapshot copy of /verif (engine + contracts + kani + known findings), so neither /repo nor /verif/evidence is touched and
+the contracts may be edited while this runs.
+usage: mutants.py [--all-props] [--jobs N] [ids...]"""
+import concurrent.futures
+import json, os, subprocess, sys, threading
 V = os.path.dirname(os.path.dirname(os.path.abspath(__file__)))
-SCR = '/tmp/wt/scratch'
 
 
 def sh(cmd, **kw):
@@ -13,36 +14,63 @@ def sh(cmd, **kw):
 
 
 def main():
-    args = [a for a in sys.argv[1:] if not a.startswith('--')]
-    allp = '--all-props' in sys.argv
-    if not os.path.isdir(SCR):
-        sh('git -C /repo worktree add --detach %s HEAD' % SCR)
-    sh('git -C %s checkout -q --detach main' % SCR)
+    argv = sys.argv[1:]
+    jobs = 3
+    if '--jobs' in argv:
+        i = argv.index('--jobs'); jobs = int(argv[i + 1]); del argv[i:i + 2]
+    args = [a for a in argv if not a.startswith('--')]
+    allp = '--all-props' in argv
     props = json.load(open(os.path.join(V, 'contracts', 'properties.json')))
-    rows = []
+    todo = []
     for d in sorted(os.listdir(os.path.join(V, 'seeded'))):
         pd = os.path.join(V, 'seeded', d, 'patch.diff')
-        if not os.path.exists(pd) or (args and d not in args):
-            continue
-        target = d.split('_')[0]
-        meta = os.path.join(V, 'seeded', d, 'meta.json')
-        if os.path.exists(meta):
-            target = json.load(open(meta)).get('property', target)
-        sh('git -C %s checkout -q -- . && git -C %s clean -fdq' % (SCR, SCR))
-        r = sh('git -C %s apply %s' % (SCR, pd))
-        if r.returncode != 0:
-            rows.append((d, target, 'PATCH DOES NOT APPLY', ''))
-            continue
-        plist = sorted(props) if allp else ([target] if target in props else [])
-        res = []
-        for p in plist:
-            c = sh('python3 engine/check.py %s' % p, cwd=V, env=dict(os.environ, VERIF_REPO=SCR))
-            first = [l for l in c.stdout.splitlines() if 'failed obligation' in l][:1]
-            res.append('%s:rc=%d%s' % (p, c.returncode, (' ' + first[0].split('failed obligation ')[1][:70]) if first else ''))
-        rows.append((d, target, ' | '.join(res) or 'property not claimed', ''))
-        print('%-8s %-4s %s' % (d, target, ' | '.join(res) or 'property not claimed'), flush=True)
-    sh('git -C %s checkout -q -- . && git -C %s clean -fdq' % (SCR, SCR))
-    # restore evidence for the real tree is the caller's job (evidence files were rewritten against the scratch tree)
+        if os.path.exists(pd) and (not args or d in args):
+            todo.append(d)
+    slots = list(range(jobs))
+    lock = threading.Lock()
+    for k in slots:
+        scr, snap = '/tmp/wt/scratch%d' % k, '/tmp/verif_snap%d' % k
+        if not os.path.isdir(scr):
+            sh('git -C /repo worktree add --detach %s HEAD' % scr)
+        sh('git -C %s checkout -q -- . ; git -C %s clean -fdq; git -C %s checkout -q --detach main' % (scr, scr, scr))
+        sh('mkdir -p %s && rsync -a --delete --exclude build --exclude evidence --exclude replay --exclude seeded --exclude .git %s/ %s/' % (snap, V, snap))
+        sh('mkdir -p %s/evidence %s/replay' % (snap, snap))
+
+    def one(d):
+        with lock:
+            k = slots.pop()
+        try:
+            scr, snap = '/tmp/wt/scratch%d' % k, '/tmp/verif_snap%d' % k
+            pd = os.path.join(V, 'seeded', d, 'patch.diff')
+            target = d.split('_')[0]
+            meta = os.path.join(V, 'seeded', d, 'meta.json')
+            if os.path.exists(meta):
+                target = json.load(open(meta)).get('property', target)
+            sh('git -C %s checkout -q -- . && git -C %s clean -fdq' % (scr, scr))
+            r = sh('git -C %s apply %s' % (scr, pd))
+            if r.returncode != 0:
+                line = '%-8s %-4s PATCH DOES NOT APPLY' % (d, target)
+            else:
+                plist = sorted(props) if allp else ([target] if target in props else [])
+                res = []
+                for p in plist:
+                    c = sh('python3 engine/check.py %s' % p, cwd=snap, env=dict(os.environ, VERIF_REPO=scr, VERIF_KANI_TARGET='/tmp/verif_kani_target_w%d' % k))
+                    first = [l for l in c.stdout.splitlines() if 'failed obligation' in l][:1]
+                    und = [l for l in c.stdout.splitlines() if l.startswith('UNDECIDED')][:1]
+                    res.append('%s:rc=%d%s' % (p, c.returncode, (' ' + first[0].split('failed obligation ')[1][:70]) if first else
+                                               ((' ' + und[0][:110]) if und and c.returncode == 2 else '')))
+                line = '%-8s %-4s %s' % (d, target, ' | '.join(res) or 'property not claimed')
+            sh('git -C %s checkout -q -- . && git -C %s clean -fdq' % (scr, scr))
+            print(line, flush=True)
+        finally:
+            with lock:
+                slots.append(k)
+
+    with concurrent.futures.ThreadPoolExecutor(max_workers=jobs) as ex:
+        list(ex.map(one, todo))
+    for k in range(jobs):
+        sh('rm -rf /tmp/verif_snap%d /tmp/verif_kani_target_w%d' % (k, k))
+        sh('git -C /repo worktree remove --force /tmp/wt/scratch%d' % k)
 
 
 main()
